@@ -2,11 +2,19 @@
    The applications of the listed builtins and operators to one value, as the interpreter performs them:
    validateType against the declared argument types, then the native code (Model/C16_Eval.v `native`),
    respectively the Operator method (`apply_bin`), iteration, indexing. *)
-From PlzV Require Import Base.Harness Model.C16_Syntax Model.C16_Ops Model.C16_Prim Model.C16_Eval Model.C16.
+From PlzV Require Import Base.Harness Model.C16_Syntax Model.C16_Ops Model.C16_Prim Model.C16_Eval Model.C16 Model.C18_Config.
 
-(* the correspondence cases of C18 are interpreter runs: the same case type as C16 *)
-Definition case := C16.case.
-Definition check := C16.check.
+(* the correspondence cases of C18 are interpreter runs (the case type of C16), and CONFIG round trips
+   (Model/C18_Config.v run_cfg: the entries are set by a subincluded file, or by the package itself) *)
+Inductive case :=
+| CEval (c : C16.case)
+| CCfg (imported : bool) (ops : list cfgop) (reads : list (str * cfgread * str)) (body : prog) (observed : outcome).
+
+Definition check (c : case) : bool :=
+  match c with
+  | CEval c0 => C16.check c0
+  | CCfg imported ops reads body observed => outcome_eqb (run_cfg FUEL imported ops reads body) observed
+  end.
 
 Inductive bapp :=
 | BNative (name : str) (before after : list value)   (* name(before..., V, after...) for the natives of `native` *)
